@@ -1,135 +1,301 @@
-"""Prototype: fail-closed Python-AST -> Gallina translator for elementwise integer kernels."""
-import ast, sys, textwrap
+#!/venv/bin/python
+"""Fail-closed Python-AST -> Gallina translator for the arithmetic kernels of npstructures (DESIGN.md 2.3).
 
-class Unsupported(Exception): pass
+  translate.py <repo root> <output .v>
 
-SRC = open(sys.argv[1]).read()
-TREE = ast.parse(SRC)
+Every kernel is a method whose body is scalar / elementwise integer arithmetic with `None` tests.  The body is executed symbolically,
+statement by statement, in continuation style (an `if` on a run-time condition becomes a Gallina `if` whose two arms each contain the rest
+of the body; a test `x is None` on an optional parameter is resolved statically, once per None-pattern of the optional parameters, and
+the patterns become the arms of one `match`).  Vector expressions over `self.starts / self.lengths` are translated per row: every
+whitelisted numpy function is elementwise.  Anything outside the whitelist raises Unsupported and the translator exits non-zero."""
+import ast, itertools, os, sys
 
-def find(cls, fn):
-    for n in TREE.body:
-        if isinstance(n, ast.ClassDef) and n.name == cls:
-            for m in n.body:
-                if isinstance(m, ast.FunctionDef) and m.name == fn:
-                    return m
-    raise Unsupported(f"{cls}.{fn} not found")
 
-# typing environment: name -> 'Z' | 'optZ' | 'bool'
+class Unsupported(Exception):
+    pass
+
+
+class Kernel:
+    def __init__(self, path, cls, fn, gname, params, opt, attrs=None, selfmap=None, calls=None, ret="Z", drop_asserts=True, branch=None, pre=None):
+        self.path, self.cls, self.fn, self.gname = path, cls, fn, gname
+        self.params = params          # [(gallina name, type)] in order; type 'Z' | 'optZ' | 'bool'
+        self.opt = opt                # python-level name of every optional parameter -> gallina parameter name
+        self.attrs = attrs or {}      # ('obj', 'attr') -> python-level variable it reads, e.g. ('col_slice','start') -> 'cs_start'
+        self.selfmap = selfmap or {}  # self.attr -> gallina term
+        self.calls = calls or {}      # method name -> function(args gallina) -> gallina
+        self.ret = ret
+        self.branch = branch          # optional: (predicate on statement) selecting a sub-body
+        self.pre = pre or {}          # python variable -> (gallina, type) known on entry
+
+
 class Tr:
-    def __init__(self, env, selfmap):
-        self.env = dict(env); self.selfmap = selfmap  # self.attr -> gallina name
+    def __init__(self, k, env, none):
+        self.k, self.env, self.none = k, dict(env), set(none)
+
+    def name(self, n):
+        if n in self.none: raise Unsupported(f"use of {n} while it is None")
+        if n in self.env: return self.env[n]
+        raise Unsupported(f"unknown name {n}")
+
     def expr(self, e):
-        """returns (gallina, type)"""
+        """-> (gallina, type)"""
+        k = self.k
         if isinstance(e, ast.Constant):
-            if isinstance(e.value, bool): return ("true" if e.value else "false", 'bool')
-            if isinstance(e.value, int): return (f"({e.value})", 'Z')
-            raise Unsupported(ast.dump(e))
-        if isinstance(e, ast.Name):
-            if e.id in self.env: return (e.id, self.env[e.id])
-            raise Unsupported(f"unknown name {e.id}")
-        if isinstance(e, ast.Attribute) and isinstance(e.value, ast.Name) and e.value.id == 'self':
-            if e.attr in self.selfmap: return (self.selfmap[e.attr], 'Z')
-            raise Unsupported(f"self.{e.attr}")
+            if isinstance(e.value, bool): return ("true" if e.value else "false", "bool")
+            if isinstance(e.value, int): return (f"({e.value})", "Z")
+            raise Unsupported("constant " + repr(e.value))
+        if isinstance(e, ast.Name): return self.name(e.id)
+        if isinstance(e, ast.Attribute) and isinstance(e.value, ast.Name):
+            if e.value.id == "self":
+                if e.attr in k.selfmap: return (k.selfmap[e.attr], "Z")
+                raise Unsupported(f"self.{e.attr}")
+            if (e.value.id, e.attr) in k.attrs: return self.name(k.attrs[(e.value.id, e.attr)])
+            raise Unsupported(f"{e.value.id}.{e.attr}")
         if isinstance(e, ast.UnaryOp):
             v, t = self.expr(e.operand)
-            if isinstance(e.op, ast.USub) and t == 'Z': return (f"(- {v})", 'Z')
-            if isinstance(e.op, (ast.Invert, ast.Not)) and t == 'bool': return (f"(negb {v})", 'bool')
-            raise Unsupported(ast.dump(e))
+            if isinstance(e.op, ast.USub) and t == "Z": return (f"(- {v})", "Z")
+            if isinstance(e.op, (ast.Invert, ast.Not)) and t == "bool": return (f"(negb {v})", "bool")
+            raise Unsupported(ast.dump(e)[:80])
         if isinstance(e, ast.BinOp):
             a, ta = self.expr(e.left); b, tb = self.expr(e.right)
-            ops = {ast.Add: '+', ast.Sub: '-', ast.Mult: '*', ast.FloorDiv: '/'}
-            if type(e.op) in ops and ta == tb == 'Z': return (f"({a} {ops[type(e.op)]} {b})", 'Z')
-            if isinstance(e.op, ast.BitAnd) and ta == tb == 'bool': return (f"({a} && {b})", 'bool')
-            if isinstance(e.op, ast.BitOr) and ta == tb == 'bool': return (f"({a} || {b})", 'bool')
-            raise Unsupported(ast.dump(e))
+            ops = {ast.Add: "+", ast.Sub: "-", ast.Mult: "*", ast.FloorDiv: "/", ast.Mod: "mod"}
+            if type(e.op) in ops and ta == tb == "Z": return (f"({a} {ops[type(e.op)]} {b})", "Z")
+            if isinstance(e.op, ast.BitAnd) and ta == tb == "bool": return (f"({a} && {b})", "bool")
+            if isinstance(e.op, ast.BitOr) and ta == tb == "bool": return (f"({a} || {b})", "bool")
+            raise Unsupported(ast.dump(e)[:80])
+        if isinstance(e, ast.BoolOp):
+            vs = [self.expr(v) for v in e.values]
+            vs = [(f"(negb ({v} =? 0))", "bool") if t == "Z" else (v, t) for v, t in vs]       # truthiness of an integer (len(...) and ...)
+            if all(t == "bool" for _, t in vs):
+                op = " && " if isinstance(e.op, ast.And) else " || "
+                return ("(" + op.join(v for v, _ in vs) + ")", "bool")
+            raise Unsupported(ast.dump(e)[:80])
         if isinstance(e, ast.Compare) and len(e.ops) == 1:
             a, ta = self.expr(e.left); b, tb = self.expr(e.comparators[0])
-            ops = {ast.Lt: '<?', ast.LtE: '<=?', ast.Gt: '>?', ast.GtE: '>=?', ast.Eq: '=?'}
-            if ta == tb == 'Z':
-                if type(e.ops[0]) in ops: return (f"({a} {ops[type(e.ops[0])]} {b})", 'bool')
-                if isinstance(e.ops[0], ast.NotEq): return (f"(negb ({a} =? {b}))", 'bool')
-            raise Unsupported(ast.dump(e))
-        if isinstance(e, ast.Call) and isinstance(e.func, ast.Attribute) and isinstance(e.func.value, ast.Name) and e.func.value.id == 'np':
+            ops = {ast.Lt: "<?", ast.LtE: "<=?", ast.Gt: ">?", ast.GtE: ">=?", ast.Eq: "=?"}
+            if ta == tb == "Z":
+                if type(e.ops[0]) in ops: return (f"({a} {ops[type(e.ops[0])]} {b})", "bool")
+                if isinstance(e.ops[0], ast.NotEq): return (f"(negb ({a} =? {b}))", "bool")
+            raise Unsupported(ast.dump(e)[:80])
+        if isinstance(e, ast.Call) and isinstance(e.func, ast.Attribute) and isinstance(e.func.value, ast.Name) and e.func.value.id in ("np", "_np"):
             f = e.func.attr; args = [self.expr(a) for a in e.args]
             ts = [t for _, t in args]; vs = [v for v, _ in args]
-            if f in ('minimum', 'maximum') and ts == ['Z', 'Z']: return (f"(Z.{f[:3]} {vs[0]} {vs[1]})", 'Z')
-            if f == 'clip' and ts == ['Z', 'Z', 'Z']: return (f"(Z.min (Z.max {vs[0]} {vs[1]}) {vs[2]})", 'Z')   # numpy: minimum(maximum(x, lo), hi)
-            if f == 'sign' and ts == ['Z']: return (f"(Z.sgn {vs[0]})", 'Z')
-            if f == 'abs' and ts == ['Z']: return (f"(Z.abs {vs[0]})", 'Z')
-            if f == 'where' and ts == ['bool', 'Z', 'Z']: return (f"(if {vs[0]} then {vs[1]} else {vs[2]})", 'Z')
-            if f == 'ones_like' and ts == ['Z']: return ("1", 'Z')
+            if f in ("minimum", "maximum") and ts == ["Z", "Z"]: return (f"(Z.{f[:3]} {vs[0]} {vs[1]})", "Z")
+            if f == "clip" and ts == ["Z", "Z", "Z"]: return (f"(Z.min (Z.max {vs[0]} {vs[1]}) {vs[2]})", "Z")
+            if f == "sign" and ts == ["Z"]: return (f"(Z.sgn {vs[0]})", "Z")
+            if f in ("abs", "absolute") and ts == ["Z"]: return (f"(Z.abs {vs[0]})", "Z")
+            if f == "where" and ts == ["bool", "Z", "Z"]: return (f"(if {vs[0]} then {vs[1]} else {vs[2]})", "Z")
+            if f == "ones_like" and ts == ["Z"]: return ("(1)", "Z")
+            if f in ("asanyarray", "asarray") and len(ts) >= 1 and ts[0] == "Z": return (vs[0], "Z")
+            if f in ("any", "all") and ts == ["bool"]: return (vs[0], "bool")          # per row: reduction of a one-element mask
+            if f == "min" and ts == ["Z"] and vs[0] in k.calls.get("np.min", {}): return (k.calls["np.min"][vs[0]], "Z")
             raise Unsupported(f"np.{f}{ts}")
+        if isinstance(e, ast.Call) and isinstance(e.func, ast.Name) and e.func.id == "abs":
+            v, t = self.expr(e.args[0])
+            if t == "Z": return (f"(Z.abs {v})", "Z")
+        if isinstance(e, ast.Call) and isinstance(e.func, ast.Name) and e.func.id == "len" and len(e.args) == 1:
+            key = "len:" + ast.unparse(e.args[0])
+            if key in k.calls: return (k.calls[key], "Z")
+        if isinstance(e, ast.Call) and isinstance(e.func, ast.Attribute) and isinstance(e.func.value, ast.Name) and e.func.value.id == "self" and e.func.attr in k.calls:
+            return (k.calls[e.func.attr], "Z")
         if isinstance(e, ast.IfExp):
-            c, tc = self.cond(e.test); a, ta = self.expr(e.body); b, tb = self.expr(e.orelse)
-            if ta == tb: return (f"(if {c} then {a} else {b})", ta)
-        raise Unsupported(ast.dump(e))
-    def cond(self, e):
-        return self.expr(e)
+            st = self.static(e.test)
+            if st is not None: return self.expr(e.body if st else e.orelse)
+            c, tc = self.expr(e.test); a, ta = self.expr(e.body); b, tb = self.expr(e.orelse)
+            if tc == "bool" and ta == tb: return (f"(if {c} then {a} else {b})", ta)
+        if isinstance(e, ast.Subscript) and isinstance(e.slice, ast.Name) and ast.unparse(e) in k.calls:
+            return (k.calls[ast.unparse(e)], "Z")          # e.g. self._shape.lengths[row] -> the row's length (per-row translation)
+        if isinstance(e, (ast.Attribute, ast.Subscript)) and ast.unparse(e) in k.calls:
+            return (k.calls[ast.unparse(e)], "Z")
+        raise Unsupported(ast.dump(e)[:100])
 
-def translate_calc_len(fn):
-    """_calculate_lengths(self, col_slice): straight-line with None tests -> we specialise on the
-    None-pattern of (start, stop) by symbolic execution over 'optZ' names."""
-    out = []
-    # four None-patterns; step None handled by caller (col_slice passes concrete step)
-    for sn in (True, False):
-        for en in (True, False):
-            env = {'step': 'Z'}
-            if not sn: env['start'] = 'Z'
-            if not en: env['stop'] = 'Z'
-            none = {n for n, isn in (('start', sn), ('stop', en)) if isn}
-            t = Tr(env, {'lengths': 'len_'})
-            lets = []
-            def run(stmts):
-                for s in stmts:
-                    if isinstance(s, ast.Expr) and isinstance(s.value, ast.Constant): continue  # docstring
-                    if isinstance(s, ast.Assert): continue   # step != 0 : becomes theorem hypothesis (recorded)
-                    if isinstance(s, ast.Assign) and len(s.targets) == 1:
-                        tg = s.targets[0]
-                        if isinstance(tg, ast.Tuple):   # start, stop, step = (col_slice.start, ...)
-                            continue
-                        v, ty = t.expr(s.value); lets.append((tg.id, v)); t.env[tg.id] = ty; none.discard(tg.id); continue
-                    if isinstance(s, ast.AugAssign) and isinstance(s.op, ast.BitOr):
-                        v, ty = t.expr(ast.BinOp(left=s.target, op=ast.BitOr(), right=s.value)); lets.append((s.target.id, v)); continue
-                    if isinstance(s, ast.If):
-                        # test of the form `x is None` or comparison
-                        te = s.test
-                        if isinstance(te, ast.Compare) and isinstance(te.ops[0], ast.Is) and isinstance(te.comparators[0], ast.Constant) and te.comparators[0].value is None:
-                            nm = te.left.id
-                            if nm == 'step': run(s.orelse) if False else None; continue  # step never None here
-                            if nm in none: run(s.body)
-                            else: run(s.orelse)
-                            continue
-                        # elif chain on Z comparisons: both branches assign the same single name
-                        c, _ = t.expr(te)
-                        def single(b):
-                            if len(b) == 1 and isinstance(b[0], ast.Assign): return b[0].targets[0].id, t.expr(b[0].value)[0]
-                            if len(b) == 0: return None
-                            raise Unsupported("if-branch shape")
-                        b1 = single(s.body); b2 = single(s.orelse)
-                        nm = b1[0]
-                        els = b2[1] if b2 else nm
-                        lets.append((nm, f"(if {c} then {b1[1]} else {els})")); continue
-                    if isinstance(s, ast.Return):
-                        v, _ = t.expr(s.value); lets.append((None, v)); continue
-                    raise Unsupported(ast.dump(s)[:80])
-            run(fn.body)
-            body = "\n".join(f"  let {n} := {v} in" for n, v in lets[:-1]) + f"\n  {lets[-1][1]}"
-            out.append(((sn, en), body))
-    return out
+    def static(self, test):
+        """resolve `x is None` / `x is not None` on an optional parameter; None if the test is dynamic"""
+        if isinstance(test, ast.Compare) and len(test.ops) == 1 and isinstance(test.ops[0], (ast.Is, ast.IsNot)) \
+           and isinstance(test.comparators[0], ast.Constant) and test.comparators[0].value is None:
+            l = test.left
+            nm = l.id if isinstance(l, ast.Name) else self.k.attrs.get((l.value.id, l.attr)) if isinstance(l, ast.Attribute) and isinstance(l.value, ast.Name) else None
+            if nm is None: raise Unsupported("None test on " + ast.dump(l)[:60])
+            isnone = nm in self.none
+            if not isnone and nm not in self.env: raise Unsupported(f"None test on unknown {nm}")
+            return isnone if isinstance(test.ops[0], ast.Is) else not isnone
+        if isinstance(test, ast.Call) and isinstance(test.func, ast.Name) and test.func.id == "isinstance":
+            key = "isinstance:" + ast.unparse(test)
+            if key in self.k.calls: return self.k.calls[key]
+        return None
 
-fn = find('RaggedView2', '_calculate_lengths')
-variants = dict(translate_calc_len(fn))
-def arm(sn, en):
-    return variants[(sn, en)]
-out = []
-out.append("(* GENERATED by tools/translate.py from npstructures/raggedshape.py — do not edit *)")
-out.append("From Coq Require Import ZArith Bool.\nOpen Scope Z_scope.\n")
-out.append("Definition gen_calc_len (len_ : Z) (start0 stop0 : option Z) (step : Z) : Z :=")
-out.append("  match start0, stop0 with")
-out.append("  | None, None =>\n" + arm(True, True))
-out.append("  | None, Some stop =>\n" + arm(True, False))
-out.append("  | Some start, None =>\n" + arm(False, True))
-out.append("  | Some start, Some stop =>\n" + arm(False, False))
-out.append("  end.")
-open(sys.argv[2], "w").write("\n".join(out) + "\n")
-print("wrote", sys.argv[2])
+
+def block(tr, stmts, k):
+    """gallina text of the value returned by executing stmts (continuation style)"""
+    if not stmts: raise Unsupported("fell off the end of the kernel without return")
+    s, rest = stmts[0], stmts[1:]
+    if isinstance(s, ast.Expr) and isinstance(s.value, ast.Constant): return block(tr, rest, k)      # docstring
+    if isinstance(s, ast.Expr) and isinstance(s.value, ast.Call) and ast.unparse(s.value) in ("self.ravel()",): return block(tr, rest, k)   # materialisation: no arithmetic
+    if isinstance(s, ast.Assert): return block(tr, rest, k)                                            # becomes a hypothesis of the tie lemma
+    if isinstance(s, ast.Assign) and len(s.targets) == 1:
+        tg = s.targets[0]
+        if isinstance(tg, ast.Tuple) and isinstance(s.value, ast.Tuple) and len(tg.elts) == len(s.value.elts):
+            new = Tr(k, tr.env, tr.none); lets = []
+            for t_, v_ in zip(tg.elts, s.value.elts):
+                # a tuple of plain reads of optional attributes: rename
+                if isinstance(v_, ast.Attribute) and isinstance(v_.value, ast.Name) and (v_.value.id, v_.attr) in k.attrs:
+                    src = k.attrs[(v_.value.id, v_.attr)]
+                    if src in tr.none: new.none.add(t_.id); new.env.pop(t_.id, None)
+                    else: new.env[t_.id] = tr.name(src); new.none.discard(t_.id)
+                else:
+                    v, ty = tr.expr(v_); lets.append((t_.id, v)); new.env[t_.id] = (t_.id, ty); new.none.discard(t_.id)
+            body = block(new, rest, k)
+            for n, v in reversed(lets): body = f"let {n} := {v} in\n  {body}"
+            return body
+        if isinstance(tg, ast.Tuple) and isinstance(s.value, ast.GeneratorExp):     # row, col = (np.asanyarray(v) for v in (row, col)): identity per row
+            return block(tr, rest, k)
+        if isinstance(tg, ast.Name):
+            # reading an optional attribute into a local keeps its None-ness
+            v_ = s.value
+            if isinstance(v_, ast.Attribute) and isinstance(v_.value, ast.Name) and (v_.value.id, v_.attr) in k.attrs and k.attrs[(v_.value.id, v_.attr)] in tr.none:
+                new = Tr(k, tr.env, tr.none | {tg.id}); new.env.pop(tg.id, None)
+                return block(new, rest, k)
+            if isinstance(v_, ast.Name) and v_.id in tr.none:
+                new = Tr(k, tr.env, tr.none | {tg.id}); new.env.pop(tg.id, None)
+                return block(new, rest, k)
+            v, ty = tr.expr(v_)
+            g = tg.id + "_" if tg.id in ("L",) else tg.id
+            new = Tr(k, tr.env, tr.none - {tg.id}); new.env[tg.id] = (g, ty)
+            return f"let {g} := {v} in\n  {block(new, rest, k)}"
+    if isinstance(s, ast.AugAssign) and isinstance(s.target, ast.Name):
+        v, ty = tr.expr(ast.BinOp(left=s.target, op=s.op, right=s.value))
+        new = Tr(k, tr.env, tr.none); new.env[s.target.id] = (s.target.id, ty)
+        return f"let {s.target.id} := {v} in\n  {block(new, rest, k)}"
+    if isinstance(s, ast.If):
+        st = tr.static(s.test)
+        if st is not None: return block(tr, (s.body if st else s.orelse) + rest, k)
+        c, tc = tr.expr(s.test)
+        if tc != "bool": raise Unsupported("non-boolean test")
+        return f"(if {c}\n   then {block(tr, s.body + rest, k)}\n   else {block(tr, s.orelse + rest, k)})"
+    if isinstance(s, ast.Raise): return "None" if k.ret.startswith("option") else (_ for _ in ()).throw(Unsupported("raise in a total kernel"))
+    if isinstance(s, ast.Return):
+        v = s.value
+        wrap = (lambda x: f"Some {x}") if k.ret.startswith("option") else (lambda x: x)
+        if isinstance(v, ast.Call) and ast.unparse(v.func) == "self.__class__":
+            parts = [tr.expr(a)[0] for a in v.args]
+            if len(parts) == 2: parts.append(k.selfmap.get("__default_step__", "(1)"))
+            return wrap("(" + ", ".join(parts) + ")")
+        if isinstance(v, ast.Call) and isinstance(v.func, ast.Attribute) and ast.unparse(v.func) == "self._pos_col_slice":
+            raise Unsupported("call of _pos_col_slice must be cut by the kernel's branch selector")
+        if isinstance(v, ast.Tuple):
+            return wrap("(" + ", ".join(tr.expr(a)[0] if not (isinstance(a, ast.Constant) and a.value is None) else "tt" for a in v.elts) + ")")
+        return wrap(tr.expr(v)[0])
+    raise Unsupported(ast.dump(s)[:100])
+
+
+def find(tree, cls, fn):
+    for n in tree.body:
+        if isinstance(n, ast.ClassDef) and n.name == cls:
+            for m in n.body:
+                if isinstance(m, ast.FunctionDef) and m.name == fn: return m
+    raise Unsupported(f"{cls}.{fn} not found")
+
+
+def gen_kernel(k, repo):
+    tree = ast.parse(open(os.path.join(repo, k.path)).read())
+    fn = find(tree, k.cls, k.fn)
+    body = fn.body
+    if k.branch: body = k.branch(body)
+    optnames = list(k.opt)
+    sig = " ".join(f"({n} : {'option Z' if t == 'optZ' else t})" for n, t in k.params)
+    out = [f"Definition {k.gname} {sig} : {k.ret} :="]
+    def arm(pattern):
+        env = dict(k.pre)
+        for n, t in k.params:
+            if t != "optZ": env[n] = (n, t)
+        none = set()
+        for pyname, isnone in zip(optnames, pattern):
+            if isnone: none.add(pyname)
+            else: env[pyname] = (pyname + "_v", "Z")
+        return block(Tr(k, env, none), body, k)
+    if not optnames:
+        out.append("  " + arm(()) + ".")
+    else:
+        out.append("  match " + ", ".join(k.opt[n] for n in optnames) + " with")
+        for pattern in itertools.product([True, False], repeat=len(optnames)):
+            pats = ", ".join("None" if isnone else f"Some {n}_v" for n, isnone in zip(optnames, pattern))
+            out.append(f"  | {pats} =>\n  " + arm(pattern))
+        out.append("  end.")
+    return "\n".join(out)
+
+
+def after(pred):
+    """sub-body: the statements after the first statement satisfying pred"""
+    def f(body):
+        for i, s in enumerate(body):
+            if pred(s): return body[i + 1:]
+        raise Unsupported("branch selector found nothing")
+    return f
+
+
+def inside_if(pred):
+    def f(body):
+        for s in body:
+            if isinstance(s, ast.If) and pred(s): return s.body
+        raise Unsupported("branch selector found nothing")
+    return f
+
+
+RS = "npstructures/raggedshape.py"
+CS = {("col_slice", "start"): "cs_start", ("col_slice", "stop"): "cs_stop", ("col_slice", "step"): "cs_step"}
+KERNELS = [
+    # RaggedView2._calculate_lengths(col_slice): the length of every row after a column slice
+    Kernel(RS, "RaggedView2", "_calculate_lengths", "gen_calc_len", [("len_", "Z"), ("start0", "optZ"), ("stop0", "optZ"), ("step", "Z")],
+           {"cs_start": "start0", "cs_stop": "stop0"}, attrs=CS, selfmap={"lengths": "len_"}, pre={"cs_step": ("step", "Z")}),
+    # RaggedView2._pos_col_slice(col_slice): (start, length, column step) of a row after a positive-step column slice
+    Kernel(RS, "RaggedView2", "_pos_col_slice", "gen_pos_col_slice", [("s_", "Z"), ("len_", "Z"), ("c_", "Z"), ("start0", "optZ"), ("stop0", "optZ"), ("step", "Z")],
+           {"cs_start": "start0", "cs_stop": "stop0"}, attrs=CS, selfmap={"lengths": "len_", "starts": "s_", "col_step": "c_"}, pre={"cs_step": ("step", "Z")}, ret="(Z * Z * Z)"),
+    # RaggedView2.col_slice, negative-step branch (everything after `if step > 0: return self._pos_col_slice(...)`)
+    Kernel(RS, "RaggedView2", "col_slice", "gen_neg_col_slice", [("s_", "Z"), ("len_", "Z"), ("c_", "Z"), ("start0", "optZ"), ("stop0", "optZ"), ("step", "Z")],
+           {"cs_start": "start0", "cs_stop": "stop0"}, attrs=CS, selfmap={"lengths": "len_", "starts": "s_", "col_step": "c_"},
+           pre={"cs_step": ("step", "Z"), "step": ("step", "Z")}, ret="(Z * Z * Z)",
+           calls={"_calculate_lengths": "(gen_calc_len len_ start0 stop0 step)"},
+           branch=after(lambda s: isinstance(s, ast.If) and "self._pos_col_slice" in ast.unparse(s))),
+    # RaggedView2.col_slice, integer column: guard (True = refused) and the selected cell of a row
+    Kernel(RS, "RaggedView2", "col_slice", "gen_col_int", [("s_", "Z"), ("len_", "Z"), ("c_", "Z"), ("minlen", "Z"), ("nrows", "Z"), ("idx", "Z")],
+           {}, attrs={}, selfmap={"lengths": "len_", "starts": "s_", "col_step": "c_"}, pre={"col_slice": ("idx", "Z")}, ret="option (Z * Z * Z)",
+           calls={"np.min": {"len_": "minlen"}, "len:self.lengths": "nrows"},
+           branch=inside_if(lambda s: "isinstance(col_slice, Number)" in ast.unparse(s.test))),
+    # RaggedView2.ends
+    Kernel(RS, "RaggedView2", "ends", "gen_ends", [("s_", "Z"), ("len_", "Z"), ("c_", "Z")], {}, selfmap={"lengths": "len_", "starts": "s_", "col_step": "c_"}),
+    # HashTable._get_hash / _get_mod
+    Kernel("npstructures/hashtable.py", "HashTable", "_get_hash", "gen_hash", [("keys", "Z"), ("mod_", "Z")], {}, selfmap={"_mod": "mod_"}),
+    # RunLengthArray._get_position: negative wrap of the index
+    Kernel("npstructures/runlengtharray.py", "RunLengthArray", "_get_position", "gen_rle_wrap", [("idx", "Z"), ("n_", "Z")], {},
+           calls={"len:self": "n_"}, branch=lambda body: [ast.Return(value=body[0].value)]),
+]
+
+
+GROUPS = {"view": ["gen_calc_len", "gen_pos_col_slice", "gen_neg_col_slice", "gen_col_int", "gen_ends"], "hash": ["gen_hash"], "rle": ["gen_rle_wrap"]}
+
+
+def main():
+    """translate.py <repo root> <output dir>: writes K_<group>.v for every group; a kernel that cannot be translated is reported on stdout as
+    `FAILED <kernel>: <reason>` and left out (the tie lemma that needs it then does not compile: fail closed)"""
+    repo, outd = sys.argv[1], sys.argv[2]
+    byname = {k.gname: k for k in KERNELS}
+    for g, names in GROUPS.items():
+        parts = ["(* GENERATED by tools/translate.py from the current sources of npstructures - do not edit *)",
+                 "From Coq Require Import ZArith Bool.\nOpen Scope Z_scope.\nOpen Scope bool_scope.\n"]
+        for n in names:
+            k = byname[n]
+            try:
+                parts.append(f"(* {k.path}: {k.cls}.{k.fn} *)\n" + gen_kernel(k, repo) + "\n")
+            except Unsupported as e:
+                print(f"FAILED {n}: Unsupported: {e}"); parts.append(f"(* {n}: NOT TRANSLATED: {str(e)[:200].replace('*)', '* )')} *)\n")
+            except (SyntaxError, OSError, AttributeError, IndexError, KeyError, TypeError) as e:
+                print(f"FAILED {n}: {type(e).__name__}: {e}"); parts.append(f"(* {n}: NOT TRANSLATED *)\n")
+        new = "\n".join(parts)
+        path = os.path.join(outd, f"K_{g}.v")
+        if not os.path.exists(path) or open(path).read() != new:
+            open(path, "w").write(new)
+    print("done")
+
+
+if __name__ == "__main__":
+    main()
